@@ -60,6 +60,8 @@ def edits(game):
             else:
                 for val in ("0.5", None):
                     g = mk(); g["transition_list"][s][i] = (val, t); yield "prob:%r" % (val,), pc + "/" + tp, g
+    yield "empty-game", "whole", {"rewards": [], "players": [], "transition_list": [], "final_states": []}
+    yield "empty-game", "whole", {"rewards": [], "players": [], "transition_list": [], "final_states": [0]}
     k = len(game["final_states"])
     for j in range(k):
         for val, nm in ((n, "n"), (n + 3, "n+3"), (-1, "-1"), (-n, "-n")):
@@ -116,7 +118,7 @@ def decide(gd, idx, cls, sample_run_games):
                 problems.append({"rule": rule, "pos": pc, "prune": prune, "problem": "solve raised %s instead of ValueError: %s" % (type(e).__name__, str(e)[:120]), "game": g})
             finally:
                 MON.metering = False
-        if j % 5 == 0 and len(g["players"]) == len(base["players"]) and all(isinstance(g[k], list) for k in ("rewards", "players", "transition_list", "final_states")):
+        if j % 5 == 0 and g["players"] and len(g["players"]) == len(base["players"]) and all(isinstance(g[k], list) for k in ("rewards", "players", "transition_list", "final_states")):
             # the same StochasticGame object: solve the well-formed game, then the description is edited in place and solved again
             stats["same_object_edits"] = stats.get("same_object_edits", 0) + 1
             good = copy.deepcopy(base)
